@@ -58,7 +58,8 @@ func (c IDCase) udpBuffer() int {
 type IDRep struct {
 	Size int    // size of the reply in octets (0 = 36)
 	Kind string // match | foreign | stale | dup (repeats the previous reply) | foreign-malformed (foreign ID, header intact, body cut short)
-	ID   uint16 // ID carried (for match = the request's ID)
+	//             | runt (round 9: the first Size = 0..11 octets of a reply with a foreign ID - shorter than a DNS header)
+	ID uint16 // ID carried (for match = the request's ID)
 }
 
 // knownMalformedForeign is the id of the finding "a datagram with a foreign ID that does not decode
@@ -71,6 +72,12 @@ const knownMalformedForeign = "dgram-malformed-foreign-aborts"
 // (KNOWN_FINDINGS.txt). While it is listed and its probe reproduces, datagram cases in which a reply
 // with another ID precedes the matching one (or the deadline) go through Client.ExchangeWithConn only.
 const knownExchangeConnNoSkip = "exchangeconn-dgram-no-skip"
+
+// knownRuntAborts is the id of the finding "a datagram shorter than a DNS header (0..11 octets, any ID
+// octets it has differ from the request's) ends a datagram exchange with ErrShortRead instead of being
+// skipped" (KNOWN_FINDINGS.txt). While it is listed and its probe reproduces, the class runt is
+// replaced by well-formed foreign replies.
+const knownRuntAborts = "dgram-runt-aborts-exchange"
 
 func genIDCase(stream bool) func(t *rapid.T) IDCase {
 	return func(t *rapid.T) IDCase {
@@ -153,7 +160,15 @@ func genIDCase(stream bool) func(t *rapid.T) IDCase {
 						kind = "foreign-malformed"
 					}
 				}
-				c.Replies = append(c.Replies, IDRep{Kind: kind, ID: foreign("fid")})
+				size := 0
+				if kind == "foreign" && rapid.IntRange(0, 5).Draw(t, "runt") == 0 {
+					if pbt.Known(knownRuntAborts) {
+						pbt.Excluded(knownRuntAborts)
+					} else {
+						kind, size = "runt", rapid.SampledFrom([]int{0, 1, 2, 3, 4, 11, 11}).Draw(t, "runtLen")
+					}
+				}
+				c.Replies = append(c.Replies, IDRep{Kind: kind, ID: foreign("fid"), Size: size})
 			}
 		}
 		if rapid.IntRange(0, 9).Draw(t, "answered") < 8 {
@@ -184,7 +199,7 @@ func genIDCase(stream bool) func(t *rapid.T) IDCase {
 		}
 		buf := c.udpBuffer()
 		for i := range c.Replies {
-			if c.Replies[i].Kind == "foreign-malformed" {
+			if c.Replies[i].Kind == "foreign-malformed" || c.Replies[i].Kind == "runt" {
 				continue
 			}
 			if len(c.Replies) > 24 && i >= 4 && i < len(c.Replies)-4 {
@@ -285,6 +300,20 @@ func checkID(c IDCase) error {
 		}
 		if c.OptSize > 0 && c.ClientUDPSize >= 512 && c.ClientUDPSize != c.OptSize {
 			cl = append(cl, "opt-and-client-size-differ")
+		}
+		// replies that fill the receive buffer to the last octet (they arrived whole)
+		how := "512"
+		if c.udpBuffer() > 512 {
+			how = ">512"
+		}
+		if firstMatch >= 0 && c.Replies[firstMatch].Size == c.udpBuffer() {
+			cl = append(cl, "matching-reply-of-exactly-the-buffer-size", "matching-reply-of-exactly-the-buffer-size,buffer"+how)
+		}
+		for i, r := range c.Replies {
+			if r.Size == c.udpBuffer() && r.ID != c.ID && (firstMatch < 0 || i < firstMatch) {
+				cl = append(cl, "skipped-reply-of-exactly-the-buffer-size")
+				break
+			}
 		}
 	}
 	nontrivial := foreignBefore > 0 || (c.Stream && len(c.Replies) > 1 && c.After != "")
@@ -416,6 +445,9 @@ func runIDDatagram(c IDCase, firstMatch int, q *dns.Msg) error {
 			if r.Kind == "foreign-malformed" {
 				b = b[:len(b)-3] // header and ID intact, RDATA shorter than its RDLENGTH
 			}
+			if r.Kind == "runt" {
+				b = b[:min(r.Size, 11)] // not even a header; the ID octets, if any, are not the request's
+			}
 			cc.Inject(b, srv.LocalAddr())
 		}
 	})
@@ -477,6 +509,11 @@ func init() {
 	// the reply with ID 7, both in the socket buffer when ExchangeConn starts to read
 	pbt.Probe(knownExchangeConnNoSkip, func() error {
 		return runID(IDCase{ID: 7, Timeout: 60, API: "ExchangeConn", Replies: []IDRep{{Kind: "foreign", ID: 8}, {Kind: "match", ID: 7}}}, 1)
+	})
+	// request ID 7 over an in-memory datagram conn; datagram 1: the 5 octets 00 09 81 00 00 (the start of
+	// a reply with ID 9), datagram 2: the reply with ID 7
+	pbt.Probe(knownRuntAborts, func() error {
+		return runID(IDCase{ID: 7, Timeout: 60, Replies: []IDRep{{Kind: "runt", ID: 9, Size: 5}, {Kind: "match", ID: 7}}}, 1)
 	})
 	pbt.Probe(knownMalformedForeign, func() error {
 		return runID(IDCase{ID: 7, Timeout: 60, Replies: []IDRep{{Kind: "foreign-malformed", ID: 9}, {Kind: "match", ID: 7}}}, 1)
